@@ -81,7 +81,7 @@ def create_linked_view(project, prefix=None, job_ids=None, path=None):
         paths = os.path.join(path_function(job), "job")
         links[paths] = job.path
     if not links:  # data space contains less than two elements
-        for job in project.find_jobs():
+        for job in jobs:
             links["./job"] = job.path
         assert len(links) < 2
 
